@@ -90,12 +90,15 @@ class Relation:
 
     def __lt__(self, other: Any) -> bool:
         # The order must not depend on the order of the children, consistently with __eq__
-        return self._sort_key() < (other._sort_key() if isinstance(other, Relation) else str(other))
+        if not isinstance(other, Relation):
+            return str(self._sort_key()) < str(other)
+        return self._sort_key() < other._sort_key()
 
-    def _sort_key(self) -> str:
+    def _sort_key(self) -> tuple[str, int, int, tuple[str, ...]]:
+        # A tuple, not a joined string: the children {'A B'} and {'A', 'B'} must not get the same key
         parent_name = self.parent.name if self.parent else ""
-        children_names = " ".join(sorted(child.name for child in self.children))
-        return f"{parent_name}[{self.card_min},{self.card_max}]{children_names}"
+        children_names = tuple(sorted(child.name for child in self.children))
+        return (parent_name, self.card_min, self.card_max, children_names)
 
 
 class FeatureType(Enum):
